@@ -91,12 +91,26 @@ def holder_cmd(bindir, holder, fmt):
     if kind == "dadd7":
         # +7d -7d: the value went through the calendar's own add code
         return [str(bindir / "dadd")] + ia + ["-f", fmt, "+7d", "-7d"], mk
+    if kind in ("droundMon", "droundThu"):
+        # the value the formatter gets was produced by dround (next Mon/Thu on or after)
+        return [str(bindir / "dround")] + ia + ["-f", fmt, kind[6:]], mk
     raise KeyError(holder)
+
+
+def holder_shift(holder, o):
+    """ordinal of the day the holder's tool is expected to print for input day o"""
+    kind = holder.split(":")[0]
+    if kind == "droundMon":
+        return o + (7 - (o - 1) % 7) % 7
+    if kind == "droundThu":
+        return o + (3 - (o - 1) % 7) % 7
+    return o
 
 
 HOLDERS = ["dconv:ymd", "dconv:ywd", "dconv:yd", "dconv:ymcw", "dconv:ldn", "dconv:mdn",
            "dadd:ymd", "dadd:ywd", "dadd:yd", "dadd:ymcw", "dadd:ldn",
-           "dadd7:ywd", "dadd7:ymcw", "dadd7:yd"]
+           "dadd7:ywd", "dadd7:ymcw", "dadd7:yd",
+           "droundMon:ymd", "droundMon:ywd", "droundMon:ymcw", "droundThu:ywd", "droundThu:yd"]
 
 
 def strf_task(task):
@@ -115,6 +129,11 @@ def strf_task(task):
     pred = lambda i: specs[i - 1] if i else "-"
     for k, got in enumerate(outs):
         d = days[k]
+        t = holder_shift(holder, d.o)
+        if t != d.o:
+            if t > cal.ORD_MAX:
+                continue
+            d = cal.Day(t)
         if got is None:
             sh.bad("strf", "strf:%s:refused:cls=%s" % (holder, c01.cls3(d)),
                    "%s refuses %r" % (argv[0].split("/")[-1], lines[k]),
